@@ -58,6 +58,16 @@ TEXT = {
         "level_text": "Fault enumeration: for each generated (history, batch) the failing call index is enumerated exhaustively; atomicity = battery answers unchanged after each failure, idempotence = unchanged after repeat, restart-stability = unchanged after reopen and model-equal afterwards.",
         "level_note": "Faults are injected at the driver API before the call executes (commit failure rolls back like go-sqlite3); no torn-page / power-loss model. Batteries compare unlimited queries exactly (as sets with content digests) and all queries against the model.",
     },
+    "C12": {
+        "technique": "property-based testing (rapid) over real loopback WebSocket connections: generated frame sequences (valid, malformed, forged, replayed-with-alteration) against a frame classification oracle and a recording handler; generated handler output decoded by an independent JSON decoder",
+        "level_text": "Exploration: hundreds of connections per run; per connection the handler must have received exactly the valid authentic frames in order, the client exactly one rejection per other frame in order, the connection must survive, and emitted server messages must arrive as equal JSON text frames.",
+        "level_note": "Trusted: the frame oracle (harness/gen wire + corruption classes), btcec for signing, coder/websocket client. JSON null variants are not generated. Sentinel CLOSE messages synchronise without sleeps.",
+    },
+    "C13": {
+        "technique": "property-based testing (rapid): generated handler compositions x client histories x cut points x ending modes x peer behaviours with bounded-time termination, goroutine-profile diff, router-registry (hook) and gauge observers; WebSocket send-timeout clause enumerated over ping settings",
+        "level_text": "Exploration: after the generated cut ServeNostr must return within 5 s and the goroutines with a mocrelay frame, router registry and gauges must be back to baseline; for every generated send timeout all three ping settings are run against a non-reading client.",
+        "level_note": "'Promptly' is a time bound two orders of magnitude above normal latency. Goroutine baseline is taken per case after handler construction (SQLite's bulk inserter is handler-lifetime). Hook: RouterHandler.VerifSubscriptionCount (tag verif).",
+    },
     "C10": {
         "technique": "property-based testing (rapid): grammar-generated wire texts with near-miss mutations against a no-panic / completeness / decode-encode-decode oracle, value round trips for all 14 types, repository corpus replay; native go fuzz target in the thorough tier",
         "level_text": "Exploration: tens of thousands of generated and mutated JSON texts per run go through ParseClientMsg and json.Unmarshal of all 14 exported types (no panic, complete value, idempotent re-decode), and generated values of every type are round-tripped; thorough adds a coverage-guided fuzz campaign with the same oracle inside the target.",
